@@ -55,6 +55,14 @@ def read_elements(src, qual):
     names = [a.arg for a in el.args.args][1:]
     dflt = {a.arg: ast.literal_eval(ast.unparse(d)) for a, d in zip(el.args.args[-len(el.args.defaults):], el.args.defaults)}
     rows = []
+    # local aliases of the factory method (`p = self._precedence`, `operator_type = Function.Element.Type.Operator`) are resolved, whatever they are called
+    alias = {}
+    for st in fn.body:
+        if isinstance(st, (ast.Assign, ast.AnnAssign)) and getattr(st, "value", None) is not None:
+            for t in (st.targets if isinstance(st, ast.Assign) else [st.target]):
+                if isinstance(t, ast.Name):
+                    alias[t.id] = ast.unparse(st.value)
+    res = lambda node: alias.get(node.id, node.id) if isinstance(node, ast.Name) else ast.unparse(node)        # noqa
     for call in ast.walk(fn):
         if isinstance(call, ast.Call) and ast.unparse(call.func) == "Function.Element":
             got = dict(zip(names, call.args))
@@ -62,9 +70,9 @@ def read_elements(src, qual):
             a0 = got.get("name")
             name = a0.value if isinstance(a0, ast.Constant) else {"Rule.AND": "and", "Rule.OR": "or"}.get(ast.unparse(a0), ast.unparse(a0))
             prec = got.get("precedence")
-            imp = int(prec.args[0].value) if isinstance(prec, ast.Call) and ast.unparse(prec.func) == "p" and isinstance(prec.args[0], ast.Constant) else None
+            imp = int(prec.args[0].value) if isinstance(prec, ast.Call) and res(prec.func) == "self._precedence" and len(prec.args) == 1 and isinstance(prec.args[0], ast.Constant) else None
             lit = lambda k: ast.literal_eval(ast.unparse(got[k])) if k in got else dflt.get(k)
-            rows.append((name, ast.unparse(got["method"]) if "method" in got else None, lit("arity"), imp, lit("associativity"), ast.unparse(got.get("type")) if "type" in got else None))
+            rows.append((name, ast.unparse(got["method"]) if "method" in got else None, lit("arity"), imp, lit("associativity"), {"Function.Element.Type.Operator": "operator_type", "Function.Element.Type.Function": "function_type"}.get(res(got["type"]), res(got["type"])) if "type" in got else None))
     return fn, rows
 
 
